@@ -478,7 +478,33 @@ def text_formats(ctx):
         g = repo.func(IO, q)
         rets = [o for o in ev.outcomes(g) if o.kind == "return"]
         want = App("call:getattr", (P("self"), App("idx", (Const(table), App("meth:lower", (P(par),))))))
-        R.check("C03-D2c format dispatch", bool(rets) and all(o.value == want for o in rets), q.split(".")[-1], mod=g.module, node=g.node,
+        ok_form = bool(rets) and all(o.value == want for o in rets)
+        if not ok_form and rets and isinstance(table, dict):
+            # decided by evaluation: for every registered format name (any capitalisation) exactly the returning paths whose conditions
+            # hold are taken and they return getattr(self, <table entry of the lower-cased name>); an unknown name takes none of them
+            from sa.teval import teval as _teval, Unknown as _Unknown
+            try:
+                good = True
+                for name in [k for k in table] + [k.upper() for k in table] + [k.capitalize() for k in table] + ["no-such-format", ""]:
+                    env_ = {P(par): name, "param:" + par: name}
+                    taken = [o for o in rets if all(bool(_teval(c_, env_)) for c_ in o.conds)]
+                    if name.lower() in table:
+                        vals = [o.value for o in taken]
+                        good = good and len(taken) >= 1 and all(isinstance(v, App) and v.op == "call:getattr" and len(v.args) == 2 and v.args[0] == P("self")
+                                                               and _teval(v.args[1], env_) == table[name.lower()] for v in vals)
+                    else:
+                        # refused: no returning path is taken, or a raising path is (a raise inside a followed helper pre-empts)
+                        def _holds(o_):
+                            try:
+                                return all(bool(_teval(c_, env_)) for c_ in o_.conds)
+                            except _Unknown:
+                                return False
+                        raised = [o_ for o_ in ev.outcomes(g) if o_.kind == "raise" and _holds(o_)]
+                        good = good and (not taken or bool(raised))
+                ok_form = good
+            except _Unknown:
+                ok_form = False
+        R.check("C03-D2c format dispatch", ok_form, q.split(".")[-1], mod=g.module, node=g.node,
                 function=ctx.fq(g), expected=f"getattr(self, <own table>[{par}.lower()])", found=f"{[repr(o.value)[:160] for o in rets]}")
     dp = repo.func("suit_generator.envelope", "SuitEnvelope.dump")
     douts = [o for o in ev.outcomes(dp) if o.kind == "return"]
@@ -718,7 +744,13 @@ def union_order(ctx):
             for tr in [n for n in lp.body if isinstance(n, ast.Try)]:
                 calls = [c for st_ in tr.body for c in ast.walk(st_) if isinstance(c, ast.Call) and isinstance(c.func, ast.Attribute) and c.func.attr == method
                          and isinstance(c.func.value, ast.Name) and c.func.value.id == x and len(c.args) == 1 and isinstance(c.args[0], ast.Name) and c.args[0].id == data]
-                brk = any(isinstance(st_, ast.Break) for st_ in tr.body + tr.orelse)
+                brk = any(isinstance(st_, (ast.Break, ast.Return)) for st_ in tr.body + tr.orelse)
+                if not brk:
+                    # the other spelling: every handler goes on to the next alternative with `continue`, and the statement that follows the
+                    # try in the loop body - reached only when no ValueError was raised - leaves the loop (break / return)
+                    after = lp.body[lp.body.index(tr) + 1:]
+                    brk = bool(after) and isinstance(after[0], (ast.Break, ast.Return)) and bool(tr.handlers) and all(
+                        h.body and isinstance(h.body[-1], ast.Continue) for h in tr.handlers)
                 hs = tr.handlers
                 only_value_error = bool(hs) and all(h.type is not None and {ast.unparse(t_) for t_ in (h.type.elts if isinstance(h.type, ast.Tuple) else [h.type])} == {"ValueError"}
                                                     and not any(isinstance(z, (ast.Raise, ast.Return, ast.Break)) for z in ast.walk(h)) for h in hs)
